@@ -340,7 +340,7 @@ def c16_runs(tier):
     root = os.path.join(vlib.scratch(), "c16")
     jobs = []
     k = 0
-    opts = ["default", "user", "path_rel", "path_abs", "path_user", "path_rel_user", "path_dotdot"]
+    opts = ["default", "user", "path_rel", "path_abs", "path_user", "path_rel_user", "path_dotdot", "path_abs_dotdot"]
     for a in agents:
         for o in opts:
             for pr in C16_PRIORS:
@@ -365,6 +365,11 @@ def c16_runs(tier):
             custom = "custom/rel"
         elif o in ("path_abs", "path_user"):
             custom = os.path.join(other, "abs")
+        if o == "path_abs_dotdot":
+            # the same through an ABSOLUTE path
+            os.makedirs(os.path.join(other, "deep", "dir"))
+            os.symlink(os.path.join(other, "deep", "dir"), os.path.join(cwd, "lnk"))
+            custom = os.path.join(cwd, "lnk", "..", "viaparent")
         if o == "path_dotdot":
             # a relative path that climbs out of a symlinked directory: the operating system applies ".." AFTER following
             # the link, so lnk/../viaparent is a sibling of the link's target, not of the link
@@ -375,7 +380,7 @@ def c16_runs(tier):
             args += ["--path", custom]
         if user:
             args += ["--user"]
-        if o == "path_dotdot":
+        if o in ("path_dotdot", "path_abs_dotdot"):
             base = os.path.join(other, "deep", "viaparent")
         elif custom:
             base = custom if custom.startswith("/") else os.path.join(cwd, custom)
